@@ -360,6 +360,7 @@ struct World {
     /// spell_fun: (dictionary+dialect id, word) -> payload of the lint an uncached SpellCheck builds
     spell_table: HashMap<(usize, Vec<char>), (usize, String)>,
     dicts: Interner<String>,
+    runs: u64,
     all_keys: Vec<String>,
 }
 impl World {
@@ -384,6 +385,7 @@ impl World {
             chunk_fun_unused: 0,
             spell_table: HashMap::new(),
             dicts: Interner::new(),
+            runs: 0,
             all_keys,
         }
     }
@@ -521,6 +523,7 @@ struct CoreRun {
     pending_evict: Vec<usize>,
     evictions: u64,
     dictid: usize,
+    user_words: Vec<String>,
 }
 
 /// capacity of LintGroup's chunk cache, read from the source (the theorems hold for every capacity; the
@@ -535,8 +538,12 @@ impl CoreRun {
         let dict = mk_dict(&h.user_words);
         let dialect = dialect_of(&h.dialect);
         let g = mk_group(&dict, dialect);
-        let dictid = w.dicts.id(&format!("{}|{:?}", h.dialect, h.user_words));
-        let mut r = CoreRun { dict, dialect, g, cfgid: 0, hashid: 0, lru: LruSim::new(lru_cap()), keyids: Interner::new(), fixed_key: std::env::var("C05_KEY").map(|v| v == "fixed").unwrap_or(false), populated: HashMap::new(), pending_evict: vec![], evictions: 0, dictid };
+        // spell_fun is a statement about ONE dictionary instance; with the curated dictionary alone all
+        // instances are equal, so observations are shared between histories; a user dictionary gets its own
+        // table per instance (its iteration order differs from instance to instance: FC05a)
+        w.runs += 1;
+        let dictid = if h.user_words.is_empty() { w.dicts.id(&h.dialect) } else { w.dicts.id(&format!("{}|{:?}|run{}", h.dialect, h.user_words, w.runs)) };
+        let mut r = CoreRun { dict, dialect, g, cfgid: 0, hashid: 0, lru: LruSim::new(lru_cap()), keyids: Interner::new(), fixed_key: std::env::var("C05_KEY").map(|v| v == "fixed").unwrap_or(false), populated: HashMap::new(), pending_evict: vec![], evictions: 0, dictid, user_words: h.user_words.clone() };
         if let Some(rep) = rep {
             rep.case("N", "ok");
             r.note_cfg(w, Some(rep));
@@ -612,7 +619,7 @@ impl CoreRun {
                 }
                 let hull = ci.hull.unwrap();
                 let Some(val) = rel_of(w, grp, hull.start) else {
-                    fun_fail.push(("lint_before_chunk".into(), format!("a pattern lint of the chunk at {:?} starts before the chunk ({who} linter)", hull), json!({"kind":"doc","fe":fe,"text":text})));
+                    fun_fail.push(("lint_before_chunk".into(), format!("a pattern lint of the chunk at {:?} starts before the chunk ({who} linter)", hull), json!({"kind":"history","target":"core","dialect":format!("{:?}", self.dialect),"user_words":self.user_words,"ops":[{"op":"cfg","base":"none","set":serde_json::to_value(&self.g.group.config).unwrap()},{"op":"lint","fe":fe,"text":text}]})));
                     continue;
                 };
                 let chars: Vec<char> = src[hull.start..hull.end.min(src.len())].to_vec();
@@ -625,7 +632,7 @@ impl CoreRun {
                                 "the pattern lints of chunk {:?} (same characters, same tokens, same configuration) differ between two uncached runs: [{}] in {} {:?} vs [{}] here",
                                 chars.iter().collect::<String>(), rel_line(&o.val), o.fe, o.text, rel_line(&val)
                             ),
-                            json!({"kind":"doc_pair","a":{"fe":o.fe,"text":o.text},"b":{"fe":fe,"text":text},"config":serde_json::to_value(&self.g.group.config).unwrap()}),
+                            json!({"kind":"history","target":"core","dialect":format!("{:?}", self.dialect),"user_words":self.user_words,"ops":[{"op":"cfg","base":"none","set":serde_json::to_value(&self.g.group.config).unwrap()},{"op":"lint","fe":o.fe,"text":o.text},{"op":"lint","fe":fe,"text":text}]}),
                         ));
                     }
                     Some(_) => {}
@@ -646,7 +653,7 @@ impl CoreRun {
                                     "H_chunk_fun is false: chunk characters {:?} tokenised under front-end {} give pattern lints [{}], tokenised under front-end {} give [{}] (same configuration): the chunk cache is observable",
                                     chars.iter().collect::<String>(), fe0, rel_line(v0), fe, rel_line(&val)
                                 ),
-                                json!({"kind":"history","target":"core","dialect":format!("{:?}", self.dialect),"user_words":[], "ops":[{"op":"lint","fe":fe0,"text":text0},{"op":"lint","fe":fe,"text":text}], "note":"configuration as in the failing run"}),
+                                json!({"kind":"history","target":"core","dialect":format!("{:?}", self.dialect),"user_words":self.user_words, "ops":[{"op":"cfg","base":"none","set":serde_json::to_value(&self.g.group.config).unwrap()},{"op":"lint","fe":fe0,"text":text0},{"op":"lint","fe":fe,"text":text}]}),
                             ));
                         }
                     }
@@ -670,7 +677,7 @@ impl CoreRun {
                         Some((p0, t0)) if *p0 != pid => fun_fail.push((
                             "spell_not_function".into(),
                             format!("the lint an uncached SpellCheck builds for the word {:?} differs between two computations with the same dictionary and dialect (first seen in {:?})", wd.iter().collect::<String>(), t0),
-                            json!({"kind": "history", "target": "core", "dialect": format!("{:?}", self.dialect), "user_words": [], "ops": [{"op": "lint", "fe": "plain", "text": t0}, {"op": "lint", "fe": fe, "text": text}]}),
+                            json!({"kind": "history", "target": "core", "dialect": format!("{:?}", self.dialect), "user_words": self.user_words, "ops": [{"op": "lint", "fe": "plain", "text": t0}, {"op": "lint", "fe": fe, "text": text}]}),
                         )),
                         Some(_) => {}
                         None => {
@@ -1140,6 +1147,16 @@ const MARKUP_CLAUSES: &[&str] = &[
     "> and than he left",
     "it's a `teh` typo",
 ];
+/// misspellings close to proper nouns: their suggestions depend on the casing of the misspelt word, so the
+/// spelling cache must keep the casings apart
+const CASED_MISSPELT: &[&str] = &["teh", "jhon", "micheal", "londn", "pariss", "amercia", "germny", "mondy", "frane", "eurpe", "chna", "marc", "tuesdy", "novmber", "bosten"];
+fn recase(r: &mut Rng, w: &str) -> String {
+    match r.below(3) {
+        0 => w.to_string(),
+        1 => gen::capitalize(w),
+        _ => w.to_uppercase(),
+    }
+}
 fn gen_cfg(r: &mut Rng, w: &World) -> CfgSpec {
     let mut set = BTreeMap::new();
     for _ in 0..r.below(8) {
@@ -1166,6 +1183,12 @@ fn clause_pool(r: &mut Rng) -> Vec<String> {
     }
     for _ in 0..r.range(1, 3) {
         pool.push(r.s(MARKUP_CLAUSES).to_string());
+    }
+    // one misspelling in several casings (the pool is shared by all documents of a history)
+    let m = r.s(CASED_MISSPELT);
+    for _ in 0..r.range(2, 3) {
+        let c = recase(r, m);
+        pool.push(format!("{} {c} {}", r.s(gen::COMMON), r.s(gen::COMMON)));
     }
     pool
 }
